@@ -27,6 +27,22 @@ CHECKS = {
    text="TLC explores every interleaving of 2-3 processes storing/loading one cache entry (dir and tar layouts) with write faults, process crashes between any two storage/lock operations and single-file tampering, and checks NoFalseComplete, Repair, LockSafety, NoWriteAfterComplete and absence of stuck states; every transition is covered by a tour that is executed on real stores: each process is a goroutine with a real ModuleDataStore over a gating wrapper of one real disk bucket and a gating Locker; the name of every operation the store issues, the classified cache directory after every step, and the results of PutModuleDatas, GetModuleDatasForModuleKeys and of the lazy content access are compared with the specification.",
    note="One entry, files copied sequentially (parallelism 1); locks are an in-process table (the flock implementation itself is not part of the replay); faults at Put/Write of files and Put of the marker (failures inside the disk atomic writer: C15).",
    ref="4/C09"),
+ "C08": dict(engine="digest", technique="TLC on Digest.tla (hash as a free term algebra) with digest terms evaluated by an independent SHAKE256 and compared with Module.Digest on five backends",
+   text="TLC explores base file sets closed under perturbations (any of 14 paths incl. spaces, unicode, look-alike directories, doc/license variants and non-module files; module name; targeting; dependency and transitive dependency content; vendored well-known-type dependency) and checks Sensitive (digest changes iff module files or dependency digests change), Frame and NonModuleIrrelevant as action properties over an injective uninterpreted hash; each state carries the b5 digest and the canonical manifest as terms mirroring the published construction; the harness evaluates them with x/crypto/sha3 and compares with Module.Digest on memory, disk, tar round trip, shuffled walk and prefix-mapped buckets in both argument orders, and checks Manifest.String / ParseManifest round trip.",
+   note="The hash function itself is uninterpreted; dependencies are local modules resolved through imports; perturbation depth 1 (quick) / 2 (thorough).",
+   ref="4/C08"),
+ "C12": dict(engine="image", technique="TLC on TypeFilter.tla (Keep as least fixpoint over a fixed tangled schema, every small filter) replayed on bufimageutil.FilterImage with structural oracles",
+   text="TLC enumerates every filter with up to 2 (3) names over 27 names (messages incl. nested, enums, a map, a oneof, an extension, custom options with message and Any values used from two files, a service, packages, a file without types), checks Closed, NoExcluded, Minimal, Idempotent and NoConflictWithoutInclude for the intended semantics and emits the surviving elements, surviving fields and needed imports; FilterImage is run in copy and in-place mode with custom options on/off and the result is checked for error class, linking (protodesc.NewFiles), element and field sets, unchanged fields, comment attachment, declared imports and idempotence.",
+   note="One fixed schema: the filter space is enumerated, not the schema space; known-extension retention is off; contradictory filters (include of something excluded) may error or reduce quietly.",
+   ref="4/C12"),
+ "C18": dict(engine="image", technique="TLC on Managed.tla (transcribed decision procedure, every small configuration) replayed through the v2 buf.gen.yaml reader and the constructors with a whole-image oracle",
+   text="TLC enumerates every managed configuration with up to 2 (3) ordered disable rules from a pool of 9 and up to 2 (3) ordered override rules from a pool of 13, enabled or not, checks OffMeansUntouched, WktUntouched, DisabledUntouched, PathWise, LastWins and JsOnlyWide, and emits the decision (keep / set to a value term) for 12 file options x 4 files and js_type x 6 fields plus the exact set of source locations to sweep; Modify is applied to a clone of a real image with source info and must be proto-equal, file by file, to the clone on which exactly those decisions were applied.",
+   note="One fixed image (two modules, pre-set options, custom field options with nested paths, a well-known-type import); option value functions are uninterpreted terms rendered by the harness.",
+   ref="4/C18"),
+ "C19": dict(engine="auth", technique="TLC on Auth.tla (transcribed BUF_TOKEN parser, .netrc lookup, first-source-wins) with every token string replayed through bufcli config, connectclient.Make and a recording transport",
+   text="TLC enumerates every BUF_TOKEN symbol string up to 5 (6) symbols over {t,u,@,',',':',host1,host2}, checks NoLeak, NetrcNoLeak, EnvFirst and TokenClean and emits the parse class and the per-host token; every string is given to the real bufcli.NewConnectClientConfig with a real .netrc file, clients are made with connectclient.Make for five hosts (two configured, one foreign, a suffix and a prefix look-alike) in rotating orders on one configuration, and the Authorization header that reaches the transport of a real connect client is compared; clients for two registries are also made concurrently from one configuration.",
+   note="The registry is a recording RoundTripper, not a network peer; a well-formed token that the code rejects is not an alarm.",
+   ref="4/C19"),
 }
 
 NOT_APPLICABLE = {}
